@@ -118,4 +118,100 @@ K_SYS = {
                "0-1 timer, symbolic now/deadline/timeout below 10^6 s with every nanosecond value, unwind 3", stub=True),
 }
 
-PROPS["DEV"] = dict(level="proof", k=K_LIST + list(K_SYS.values()), m=[])
+GEN_FNS = ["<Generic<F,E> as EventSource>::process_events", "<Generic<F,E> as EventSource>::register",
+           "<Generic<F,E> as EventSource>::reregister", "<Generic<F,E> as EventSource>::unregister",
+           "Generic::unwrap", "<Generic<F,E> as Drop>::drop", "Poll::register", "Poll::reregister", "Poll::unregister"]
+K_GEN = {
+    "match": H("k_c01_generic_token_match", "generic", "Generic::process_events invokes the callback iff the event token "
+               "equals the stored token (None = unregistered ignores everything), with the event's readiness; the "
+               "callback's action is returned unchanged, foreign events give Continue", GEN_FNS[:1],
+               "all 2^64 x 2^64 token pairs, instantiation Generic<MFd, io::Error>"),
+    "steps": H("k_c16_generic_steps", "generic", "3 symbolic steps of register/reregister/unregister each with a symbolic "
+               "poller fault: kernel table has the fd <=> token.is_some() <=> poller.is_some(), key = stored token; "
+               "a faulty call changes nothing", GEN_FNS[1:4] + GEN_FNS[6:], "3 steps from unregistered, 1 fd, unwind 2"),
+    "exact": H("k_c16_generic_register_exact", "generic", "after register/reregister the table carries exactly the current "
+               "interest, mode, key; a failed register leaves token/poller None, table untouched, and can be retried",
+               GEN_FNS[1:3] + GEN_FNS[6:8], "symbolic interest/mode/token/fault, unwind 2"),
+}
+
+K_GEN_DROP = [H("k_c16_generic_%s_%s" % (how, st), "generic", "Generic %s in state '%s': the fd is not in the poller afterwards and "
+                "Poller::delete is called iff it was registered" % (how, st), GEN_FNS[4:6],
+                "concrete state, symbolic token/interest/mode, unwind 2")
+              for how in ("drop", "unwrap") for st in ("never", "registered", "unregistered")]
+
+WHEEL_FNS = ["TimerWheel::insert", "TimerWheel::insert_reuse", "TimerWheel::cancel", "TimerWheel::next_expired",
+             "TimerWheel::next_deadline", "<TimeoutData as Ord>::cmp"]
+TIMER_FNS = ["<Timer as EventSource>::process_events", "<Timer as EventSource>::register",
+             "<Timer as EventSource>::reregister", "<Timer as EventSource>::unregister", "Timer::set_deadline"]
+HEAP_LOOPS = [("swap_nonoverlapping", 7), ("binary_heap", 4), ("retain", 4)]
+K_TIMER = {
+    "first": H("k_c05_wheel_first_pop", "timer", "3 symbolic deadlines + symbolic now: next_expired is Some iff the minimum is "
+               "due and then pops a minimum entry with its token; the rest keeps its order", WHEEL_FNS,
+               "3 heap entries, whole-second instants in [1,64) (order types), unwind 8"),
+    "cmp": H("k_c05_timeoutdata_cmp", "timer", "TimeoutData order is the reverse of deadline order", WHEEL_FNS[-1:],
+             "all pairs of instants < 10^6 s", unwind_note="3"),
+    "match": H("k_c01_timer_token_match", "timer", "Timer::process_events calls back iff registered, has a deadline and the "
+               "event token equals the registration token; the event is the current deadline", TIMER_FNS[:1],
+               "all token pairs", stub=True, unwindset=HEAP_LOOPS),
+    "cycle": H("k_c05_timer_fire_cycle", "timer", "register -> Poll::poll at a symbolic clock -> deliver -> Drop | ToInstant(x): "
+               "event iff deadline reached, never early, exactly once, event = deadline; Drop leaves an empty heap, "
+               "ToInstant exactly one entry at x", TIMER_FNS + WHEEL_FNS + ["Poll::poll"],
+               "1 timer, symbolic deadline/clock/reschedule, unwind 3 + heap loops", stub=True, unwindset=HEAP_LOOPS,
+               timeout_q=900),
+    "cancelrearm": H("k_c05_timer_cancel_rearm", "timer", "unregister empties the heap, nothing fires later, the deadline is "
+                     "retained, register re-arms it exactly once; double unregister harmless", TIMER_FNS + WHEEL_FNS,
+                     "1 timer, unwind 3 + heap loops", stub=True, unwindset=HEAP_LOOPS, timeout_q=900),
+    "update": H("k_c05_timer_update", "timer", "set_deadline + reregister (no event in flight): one entry at the new deadline; "
+                "fires iff the new deadline is reached, with the new deadline", TIMER_FNS + WHEEL_FNS,
+                "1 timer, unwind 3 + heap loops", stub=True, unwindset=HEAP_LOOPS, timeout_q=900),
+    "inflight": H("k_c05_timer_rearm_inflight", "timer", "an expired event already collected in the batch, then the timer is "
+                  "re-armed by another callback before delivery: must not fire before the new deadline",
+                  TIMER_FNS + WHEEL_FNS, "1 timer, unwind 3 + heap loops", stub=True, unwindset=HEAP_LOOPS, timeout_q=900),
+}
+
+K_WHEEL_FAM = [H("k_c05_wheel_cancel_" + sh, "timer", "cancel of entry %s (x = a counter not in the heap) on a heap of 3 symbolic "
+                 "deadlines: exactly that entry leaves, next_deadline is the minimum of the survivors" % sh, WHEEL_FNS,
+                 "3 entries, symbolic whole-second deadlines in [1,64), concrete victim, unwind 8", timeout_q=600)
+               for sh in ["0", "1", "2", "x"]]
+
+TR_FNS = ["<TransientSource<T> as EventSource>::process_events", "<TransientSource<T> as EventSource>::register",
+          "<TransientSource<T> as EventSource>::reregister", "<TransientSource<T> as EventSource>::unregister",
+          "TransientSource::remove", "TransientSource::replace", "TransientSource::map", "TransientSourceState::replace_state"]
+K_TR = {
+    "3": H("k_c18_transient_3ops", "transient", "3 symbolic protocol-following operations (event with symbolic child post-action, "
+           "remove, replace, parent unregister/register, parent reregister; an owed re-registration is applied before the next "
+           "change) from From<child>: no child registered twice / unregistered twice / dropped registered / sent events while "
+           "unregistered; at most one child registered, none under an unregistered parent; events only from the current child; "
+           "only Continue|Reregister returned", TR_FNS, "3 operations, instantiation TransientSource<Child mock>, unwind 3",
+           timeout_q=900),
+    "4": H("k_c18_transient_4ops", "transient", "same, 4 operations", TR_FNS, "4 operations", tiers=T, timeout_t=2400),
+    "5": H("k_c18_transient_5ops", "transient", "same, 5 operations", TR_FNS, "5 operations", tiers=T, timeout_t=3600),
+    "e3": H("k_c18_transient_empty_3ops", "transient", "same from Default (empty wrapper)", TR_FNS, "3 operations from empty",
+            timeout_q=900),
+    "noop": H("k_c18_transient_empty_noop", "transient", "process_events on an empty wrapper: Continue, no callback", TR_FNS[:1],
+              "single call"),
+}
+
+K_PING = {
+    "decode": H("k_c03_ping_decode", "ping", "PingSource::process_events for every 64-bit eventfd counter: 0 => error and no "
+                "callback; else one drain to zero, callback iff counter >= 2 (at most one: coalescing), Remove iff LSB set; "
+                "foreign token ignored", ["<PingSource as EventSource>::process_events", "ping::eventfd::drain_ping",
+                "<Generic as EventSource>::process_events"], "all 2^64 counter values, unwind 2"),
+    "inc": H("k_c03_ping_increments", "ping", "Ping::ping adds exactly 2, dropping the last handle adds exactly 1 (LSB), "
+             "a write at the cap is swallowed", ["Ping::ping", "<FlagOnDrop as Drop>::drop", "ping::eventfd::send_ping"],
+             "all 2^64 counter values"),
+}
+K_IO = {
+    "nb": H("k_c17_set_nonblocking", "io", "set_nonblocking returns the previous O_NONBLOCK state and sets exactly what was asked; "
+            "new(true) then restore(previous) gives the initial mode back", ["io::set_nonblocking"], "both initial states x both requests"),
+    "iod": H("k_c17_io_dispatcher_readiness", "io", "IoDispatcher::process_events stores the event's readiness, returns Continue; "
+             "readiness() returns-and-clears", ["<RefCell<IoDispatcher> as EventDispatcher>::process_events", "IoDispatcher::readiness"],
+             "all 8 readiness values, all tokens"),
+}
+K_LOOP = {
+    "it": H("k_c14_event_iterator", "loop_logic", "EventIterator over 3 events with symbolic tokens yields exactly the events of the "
+            "registration's (id, generation), in order, with their readiness and full token",
+            ["<EventIterator as Iterator>::next"], "3 events, all tokens, unwind 5"),
+}
+
+PROPS["DEV"] = dict(level="proof", k=list(K_PING.values()) + list(K_IO.values()) + list(K_LOOP.values()), m=[])
